@@ -36,7 +36,7 @@ MANIFEST = {
     'technique': 'explicit-state BFS over edit histories (add / overwrite / rejected add / remove by rule, name, prefix / hook '
                  'add / hook remove) on the real router, deduplicated by the concrete object graph; each state compared with a '
                  'survivor model and with routers freshly built from the survivors',
-    'text': 'All histories up to depth 3 (quick) / 5 (thorough) over a menu of 38 operations are replayed on fresh '
+    'text': 'All histories up to depth 3 (quick) / 5 (thorough) over a menu of 40 operations are replayed on fresh '
             'applications; every distinct concrete router state is probed on all paths and methods and compared with the '
             'survivor model, with freshly built routers (two insertion orders) and through Ombott.__call__ (hook invocations).',
     'note': 'Bounds: 10 rules, 4 hook rules, 3 names, depth as stated. Trusted: the survivor model here, vf/refrouter.py.',
@@ -47,10 +47,13 @@ U = {
     '/a/{x}': (L('a/'), W('x')), '/a/{x}/c': (L('a/'), W('x'), L('/c')), '/a/{x:int}': (L('a/'), W('x', 'int')), '/q/z': (L('q/z'),),
     # two continuations that leave a filtered wildcard with different first characters (the wildcard node itself has no route)
     '/i/{n:int}/p': (L('i/'), W('n', 'int'), L('/p')), '/i/{n:int}-v': (L('i/'), W('n', 'int'), L('-v')),
+    # a plain wildcard where the two rules above have a filtered one: acceptable only while none of them is registered
+    '/i/{s}/q': (L('i/'), W('s'), L('/q')),
 }
+RMP_PATTERN = {'/i/{n:int}*': 'i/\r'}     # prefix removals whose prefix ends in a wildcard (rule text -> pattern prefix)
 HOOKS = {'/a': (L('a'),), '/a/b': (L('a/b'),), '/q': (L('q'),), '/a/{y}': (L('a/'), W('y'))}    # the hook names its wildcard differently from the routes
 NAMES = ['n1', 'n2', 'n3']
-PROBES = ['/a', '/a/b', '/a/b/c', '/ab', '/a/1', '/a/zz', '/a/1/c', '/a/zz/c', '/i/7/p', '/i/7-v', '/i/7', '/i/x/p', '/q/z', '/', '/q', '/a/', '/a/b/', '/a/c',
+PROBES = ['/i/x/q', '/i/7/q', '/a', '/a/b', '/a/b/c', '/ab', '/a/1', '/a/zz', '/a/1/c', '/a/zz/c', '/i/7/p', '/i/7-v', '/i/7', '/i/x/p', '/q/z', '/', '/q', '/a/', '/a/b/', '/a/c',
           '/a/b/d', '/abc', '/a/b/c/d', '/a//c', '/q/zz', '/a/1/d', '/b', '/a/-5', '/a/-5/c', '/q/z/', '/a/b/c/']
 METHODS = ['GET', 'POST', 'PUT']
 _canon = Canon(tb=False)
@@ -64,7 +67,7 @@ def menu():
     m += [('addm', '/a/b', 'PG'), ('addm', '/a/{x}', 'GP'), ('addm', '/q/z', 'PO')]
     m += [('rm', r) for r in U if r != '/a/{x:int}']
     m += [('rmn', n) for n in NAMES]
-    m += [('rmp', '/a/b*'), ('rmp', '/a*'), ('rmp', '/q*')]
+    m += [('rmp', '/a/b*'), ('rmp', '/a*'), ('rmp', '/q*'), ('rmp', '/i/{n:int}*')]
     m += [('hook', r) for r in HOOKS]
     m += [('unhook', r) for r in HOOKS]
     return m
@@ -225,7 +228,7 @@ class Model:
                 del self.names[n]
             return
         if k == 'rmp':
-            pfx = op[1][1:-1]
+            pfx = RMP_PATTERN.get(op[1], op[1][1:-1])
             for pat in [p for p in self.routes if p.startswith(pfx)]:
                 del self.routes[pat]
                 for n in [n for n, p in self.names.items() if p == pat]:
